@@ -21,7 +21,9 @@ BATCH = 400
 
 def expected_lines(node):
     if node.verdict == ACCEPT:
-        return ['r parse_buf 0', 'dump ' + dump_sec(node.store, 0)]
+        # what the text denotes includes the function calls it makes: each with exactly its own arguments, in order
+        calls = ['cb f %s %d%s' % (enc(ev[1]), len(ev[2]), ''.join(' ' + enc(a) for a in ev[2])) for ev in node.res.events if ev[0] == 'f']
+        return ['r parse_buf 0', 'dump ' + dump_sec(node.store, 0)] + calls
     if node.verdict in (REJECT, INCOMPLETE):
         return ['r parse_buf 1']
     return None
@@ -59,6 +61,10 @@ def judge(st, sid, case, res, exp, label):
         return
     if len(exp) > 1 and dump != exp[1]:
         st.violation('dump-mismatch:%s' % label, full_script(sid, case), exp[1], dump)
+    elif len(exp) > 1 and label == ACCEPT:
+        calls = [l for l in res.lines if l.startswith('cb f ')]
+        if calls != exp[2:]:
+            st.violation('function-calls-mismatch:%s' % label, full_script(sid, case), '\n'.join(exp[2:]) or '(no call)', '\n'.join(calls) or '(no call)')
 
 
 def run_nodes(st, drv, sid, ctxflags, nodes, init_dump):
@@ -91,6 +97,10 @@ def reduced_alphabet(sch, nocase=False):
     return names + ['7', 't1', 'T1', '=', '+=', '{', '}']
 
 
+# function calls need many tokens each: a reduced alphabet for schema F13 (several calls in one body)
+CALL_WORDS = ['fn', '(', ')', ',', '7', 'x', 'i', '=']
+
+
 # unquoted substitution words: a variable set to the empty string (its default is NOT used), an unset one (default used), a set one
 SUBST_WORDS = ['${E:-7}', '${U:-x}', '${V}', '${E}']
 
@@ -102,8 +112,10 @@ def shard_e1(shard):
     drv.define_schema(sid, sch.spec())
     st = ShardStats('E1 N=%d' % N)
     alpha = reduced_alphabet(sch, bool(ctxflags & CFGF['NOCASE'])) if kind.endswith('r') else S.alphabet_for(sch)
-    if kind.endswith('s'):
+    if kind in ('nodes', 'dfss'):
         alpha = alpha + SUBST_WORDS
+    if kind in ('nodef', 'dfsf'):
+        alpha = CALL_WORDS
     init_dump = 'dump ' + dump_sec(new_store(sch, ctxflags), 0)
     buf = []
     for prefix in prefixes:
@@ -310,6 +322,11 @@ def main():
                 for ch in chunks(frontier, 2):
                     shards.append(('dfsr', sid, cf, N, ch, ck.deadline))
         engine.phase(ck, 'E1 reduced alphabet N=%d' % N, shard_e1, shards, schemas=len(deep))
+    # several function calls in one text
+    Nf = 8 if quick else 10
+    inner, frontier = trace.viable_prefixes(SCHEMAS['F13'], 0, CALL_WORDS, 3)
+    shards = [('nodef', 'F13', 0, Nf, inner, ck.deadline)] + [('dfsf', 'F13', 0, Nf, ch, ck.deadline) for ch in chunks(frontier, 2)]
+    engine.phase(ck, 'E1 N=%d over the function-call alphabet (several calls in one text, each with its own arguments)' % Nf, shard_e1, shards, alphabet=len(CALL_WORDS))
     # E2: full product, no pruning
     L = 4 if quick else 5
     for LL in ([3, L] if quick else [4, L]):
